@@ -422,12 +422,17 @@ def _exposed(body, defined):
 
 
 def _defined_by(body):
+    """Names definitely bound by a statement list that completes normally:
+    plain assignments of the list itself and, for a nested `if` with an
+    `else`, the names bound by both of its branches (recursively)."""
     d = set()
     for st in body:
         if isinstance(st, ast.Assign):
             for t in st.targets:
                 d |= {x.id for x in ast.walk(t) if isinstance(x, ast.Name)
                       and isinstance(x.ctx, ast.Store)}
+        elif isinstance(st, ast.If) and st.orelse:
+            d |= _defined_by(st.body) & _defined_by(st.orelse)
     return d
 
 
